@@ -2,4 +2,4 @@ From Coq Require Import Extraction ExtrOcamlBasic.
 From RB Require Import Base.Prelude Sig.Types Sig.Parser Wire.Value Wire.Unmarshal Wire.Ops Wire.Body.
 Extraction Language OCaml.
 Set Extraction Output Directory ".".
-Extraction "gen_model.ml" parse_description to_str erase op_marshal op_roundtrip op_unmarshal_t op_unmarshal_p op_validate op_spec ty_of new_body step_body new_parser get get_n get_param get_next_sig sigs_left.
+Extraction "gen_model.ml" parse_description to_str erase op_marshal op_roundtrip op_unmarshal_t op_unmarshal_p op_validate op_spec ty_of new_body step_body new_parser get get_n get_param get_next_sig sigs_left body_unmarshall_all op_body_validate.
